@@ -131,6 +131,18 @@ def handle (j : Json) : R Json := do
                       ("paired", Json.arr (s.paired.map fun (c, a) => Json.arr #[Json.num c, Json.bool a]).toArray),
                       ("pending", Json.num (s.execQ.length + s.loopQ.length)),
                       ("adv_sf", jopt Json.str (advertisedSf (initialSf info paired) s.log))])
+  | "consts" =>
+    -- the constants the model fixes, for comparison with the ones in the source
+    pure (Json.mkObj [("MAX_CONFIG_VERSION", Json.num MAX_CONFIG_VERSION),
+                      ("DEFAULT_CONFIG_VERSION", Json.num DEFAULT_CONFIG_VERSION),
+                      ("MAX_MDNS_NAME_LENGTH", Json.num MAX_MDNS_NAME_LENGTH),
+                      ("DEFAULT_MDNS_NAME", jstr DEFAULT_MDNS_NAME),
+                      ("VALID_MDNS_REGEX", "[^A-Za-z0-9\\-]+"),
+                      ("LEADING_TRAILING_SPACE_DASH", "^[ -]+|[ -]+$"),
+                      ("DASH_REGEX", "[-]+"),
+                      ("HAP_SERVICE_TYPE", "_hap._tcp.local."),
+                      ("HAP_PROTOCOL_SHORT_VERSION", (Hap.Advert.lookup "pv" (advertData
+                        { display := [], category := 0, mac := [], cfg := 0, paired := false, setupHash := "" })).getD "?")])
   | _ => throw s!"advert: unknown op {op}"
 
 end Hap.Drv.Advert
